@@ -51,8 +51,9 @@ ASSUMPTIONS = [
     "shut down during the run (C18)",
 ]
 RULE = (
-    "case = api (low-level generator / misc+_ClientContext stack) x addresses (1-3) x datagrams received before serve() x "
-    "per-address generator programs (suspensions, yield with/without timeout, return, raise) x per-turn script (arrivals with "
+    "case = api (low-level generator / misc+_ClientContext stack) x addresses (1-3) x datagrams received before serve() "
+    "(0-3, or a backlog of 17-60 with arrivals in the turns right after serve() starts) x "
+    "per-address generator programs (suspensions, yield with/without timeout, return, raise, raise CancelledError) x per-turn script (arrivals with "
     "optional suspension of the handler at the condition lock, gate releases, clock advances) x never-released addresses; "
     "non-trivial = queued while running, restart by the task-done hook, discard before first yield, timeout, suspended push, "
     "blocked neighbour (class = first two that apply); distinct by case digest"
@@ -66,7 +67,9 @@ def run_real(case: dict) -> list[str]:
 
 
 def real_for_diff(case: dict, real: list[str]) -> list[str]:
-    return [ln for ln in real if ln.split()[0] not in NOISE]
+    # a generator that ends by raising CancelledError is, for the model, a generator that finishes with an exception
+    # swallowed above it (label `ge`, written `end a e`): the cancelled task is tolerated by the task group
+    return [(ln[:-1] + "e" if ln.startswith("end ") and ln.endswith(" c") else ln) for ln in real if ln.split()[0] not in NOISE]
 
 
 def model_input(case: dict, real: list[str]):
@@ -154,6 +157,10 @@ def nontrivial(case: dict, real: list[str]) -> str | None:
         tags.append("blocked-neighbour")
     if any(ln.startswith("bad ") for ln in lines):
         tags.append("parse-error")
+    if any(ln.startswith("end ") and ln.endswith(" c") for ln in real):
+        tags.insert(0, "cancelled-end")
+    if len(case.get("early", [])) > 16:
+        tags.insert(0, "backlog")
     if not tags:
         return None
     return case.get("api", "low") + "/" + "+".join(tags[:2])
@@ -174,6 +181,10 @@ def shrink(case: dict):
             if a[0] == "a" and len(a) > 3 and a[3]:
                 yield {**case, "script": sc[:i] + [t[:j] + [[a[0], a[1], a[2], 0]] + t[j + 1:]] + sc[i + 1:]}
     early = case.get("early", [])
+    if len(early) > 8:
+        for k in (len(early) // 2, len(early) // 4):
+            for i in range(0, len(early), k):
+                yield {**case, "early": early[:i] + early[i + k:]}
     for i in range(len(early)):
         yield {**case, "early": early[:i] + early[i + 1:]}
     progs = case.get("progs", {})
@@ -230,6 +241,26 @@ def corpus() -> list[dict]:
         cs.append({"api": api, "naddr": 2, "early": [[0, "aa"], [0, "ab"], [1, "ba"]],
                    "progs": {"0": [[Z, Z, Z, {"s": 0, "do": "r"}]], "1": [[Z, Y, {"s": 0, "do": "r"}]]},
                    "script": [[["a", 1, "0b"]], [], [], []]})
+    # a generator that leaves through CancelledError (ends only its own task; the task group tolerates a cancelled child)
+    # while datagrams of its address are queued behind it / arrive in the same turn / arrive later: a fresh generator
+    # must take them, in order; the neighbour is not affected
+    C = {"s": 1, "do": "c"}
+    for api in ("low", "high"):
+        cs.append({"api": api, "naddr": 2, "early": [], "progs": {"0": [[Y, C], [Y, Y, {"s": 0, "do": "c"}], [Y]]},
+                   "script": [[["a", 0, "01"]], [["a", 0, "02"], ["a", 0, "03"], ["a", 1, "0a"]], [["g", 0]], [],
+                              [["a", 0, "04"]], [["a", 0, "05"], ["a", 1, "0b"]]], "never": []})
+        cs.append({"api": api, "naddr": 1, "early": [], "progs": {"0": [[C], [Y, C], [{"s": 0, "do": "c"}], [Y]]},
+                   "script": [[["a", 0, "01"], ["a", 0, "02"], ["a", 0, "03"]], [["g", 0], ["a", 0, "04", 1]], [["g", 0]],
+                              [["a", 0, "05"]]], "never": []})
+    # a backlog larger than any plausible batch size received before serve(), and datagrams of the same addresses read
+    # in the first turns after serve() started: the parked ones go first, per address
+    for n, naddr in ((17, 1), (40, 1), (50, 2)):
+        cs.append({"api": "low", "naddr": naddr, "early": [[i % naddr, f"{0x30 + i:02x}"] for i in range(n)], "progs": {},
+                   "script": [[["a", 0, "a0"]], [["a", naddr - 1, "a1"], ["a", 0, "a2"]], [["a", 0, "a3"]], [["a", 0, "a4"]]],
+                   "never": []})
+    cs.append({"api": "high", "naddr": 1, "early": [[0, f"{0x30 + i:02x}"] for i in range(36)],
+               "progs": {"0": [[Y, {"s": 0, "do": "r"}]] * 40},
+               "script": [[["a", 0, "a0"]], [["a", 0, "a1"]], [["a", 0, "a2"]]], "never": []})
     return cs
 
 
@@ -243,11 +274,15 @@ def _rand_prog(rng, high: bool) -> list[dict]:
         elif r < 0.75:
             # (a zero timeout is a poll: a datagram that is already queued must be delivered, not dropped)
             prog.append({"s": s, "do": "yt", "t": rng.choice([0, 0, 1, 2, 3])})
-        elif r < 0.92 or not high:
+        elif r < 0.87:
             prog.append({"s": s, "do": "r"})
             break
+        elif r < 0.94:
+            # leaves through CancelledError: only the generator's own task ends, the server goes on
+            prog.append({"s": s, "do": "c"})
+            break
         else:
-            prog.append({"s": s, "do": "e"})
+            prog.append({"s": s, "do": "e" if high else "r"})
             break
     return prog
 
@@ -303,7 +338,7 @@ def _dense_case(rng) -> dict:
         for _ in range(rng.randint(1, 5)):
             k = rng.choice([0, 1, 1, 2, 2, 3])
             prog = [{"s": rng.choice([0, 0, 1]), "do": "y"} for _ in range(k)]
-            prog.append({"s": rng.choice([0, 1, 1]), "do": "r"})
+            prog.append({"s": rng.choice([0, 1, 1]), "do": rng.choice(["r", "r", "r", "c"])})
             ps.append(prog)
         progs[str(a)] = ps
     script = []
@@ -318,10 +353,87 @@ def _dense_case(rng) -> dict:
     return {"api": rng.choice(["low", "low", "high"]), "naddr": naddr, "early": [], "progs": progs, "script": script, "never": []}
 
 
+def _backlog_case(rng) -> dict:
+    """a large backlog received BEFORE serve() runs (17-60 datagrams, one or several addresses: the listener parks them
+    and hands them over when serve() starts), more datagrams of the same addresses arriving in the very first loop turns
+    after serve() started, i.e. while / right after the backlog is handed over: per-address arrival order must hold
+    across the two paths (parked -> flushed, and read while the flush may still be in progress)"""
+    naddr = rng.choice([1, 1, 2, 3])
+    cnt = [0]
+
+    def dgram() -> str:
+        cnt[0] += 1
+        return f"{cnt[0] % 256:02x}" if cnt[0] % 256 != 0x21 else "20"
+
+    nearly = rng.choice([17, 18, 20, 24, 31, 32, 33, 34, 40, 48, 49, 50, 60, rng.randint(17, 60), rng.randint(17, 60)])
+    hot = rng.randrange(naddr)
+    early = [[hot if rng.random() < 0.7 else rng.randrange(naddr), dgram()] for _ in range(nearly)]
+    progs = {}
+    for a in range(naddr):
+        r = rng.random()
+        if r < 0.5:
+            progs[str(a)] = []                                   # one long-lived generator (default stage: yield)
+        elif r < 0.8:
+            progs[str(a)] = [[{"s": 0, "do": "y"}, {"s": 0, "do": rng.choice(["r", "r", "c"])}]] * rng.randint(1, 8)
+        else:
+            progs[str(a)] = [_rand_prog(rng, False) for _ in range(rng.randint(1, 4))]
+    script = []
+    for i in range(rng.randint(1, 6)):
+        t: list = []
+        for _ in range(rng.choice([1, 1, 2, 3]) if i < 4 else rng.choice([0, 1])):
+            if rng.random() < 0.85:
+                t.append(["a", hot if rng.random() < 0.7 else rng.randrange(naddr), dgram(), 0])
+            else:
+                t.append(["g", rng.randrange(naddr)])
+        script.append(t)
+    return {"api": rng.choice(["low", "low", "high"]), "naddr": naddr, "early": early, "progs": progs, "script": script,
+            "never": []}
+
+
+def _cancel_end_case(rng) -> dict:
+    """generators that leave through CancelledError (which ends only their own task) while datagrams of their address are
+    queued behind them, arrive in the same turn, or arrive later: everything must still be handled, in order, by a fresh
+    generator"""
+    naddr = rng.choice([1, 1, 2])
+    cnt = [0]
+
+    def dgram() -> str:
+        cnt[0] += 1
+        return f"{cnt[0]:02x}" if cnt[0] != 0x21 else "20"
+
+    progs = {}
+    for a in range(naddr):
+        ps = []
+        for _ in range(rng.randint(1, 4)):
+            k = rng.choice([0, 1, 1, 1, 2])
+            prog = [{"s": rng.choice([0, 0, 1]), "do": rng.choice(["y", "y", "y", "yt"]), "t": rng.choice([0, 1, 2])} for _ in range(k)]
+            prog.append({"s": rng.choice([0, 1, 1, 2]), "do": rng.choice(["c", "c", "c", "r", "e"])})
+            ps.append(prog)
+        progs[str(a)] = ps
+    script = []
+    for _ in range(rng.randint(2, 9)):
+        t: list = []
+        for _ in range(rng.choice([0, 1, 1, 2, 3])):
+            r = rng.random()
+            if r < 0.55:
+                t.append(["a", rng.randrange(naddr), dgram(), rng.choice([0, 0, 0, 1, 2])])
+            elif r < 0.92:
+                t.append(["g", rng.randrange(naddr)])
+            else:
+                t.append(["t", rng.choice([1, 2])])
+        script.append(t)
+    early = [[rng.randrange(naddr), dgram()] for _ in range(rng.choice([0, 0, 0, 1, 2]))]
+    return {"api": rng.choice(["low", "high"]), "naddr": naddr, "early": early, "progs": progs, "script": script, "never": []}
+
+
 def generate(rng, tier: str, boost: int):
     n = (3000 if tier == "quick" else 20000) * boost
-    for _ in range(n):
+    for i in range(n):
         yield _dense_case(rng) if rng.random() < 0.4 else _rand_case(rng)
+        if i % 10 == 3:
+            yield _cancel_end_case(rng)
+        elif i % 20 == 7:
+            yield _backlog_case(rng)
     if tier != "quick" and boost == 1:
         # exhaustive: one address, every sequence of 6 turns over {arrival, arrival whose handler sleeps 2 turns at the
         # lock, gate release}, against three generator behaviours (finish after every request / every second request /
